@@ -430,6 +430,8 @@ ConservedAtEnd == Done /\ ~dtor => {v \in Vals : own[v] = "queue"} = (1 .. nextv
 
 \* ---- programs ----------------------------------------------------------------------------------
 ProgPP == << <<"push", "push">>, <<"pop", "pop">> >>
+ProgP1 == << <<"push", "push">>, <<"pop">> >>
+ProgTiny == << <<"push">>, <<"pop">> >>
 ProgLost == << <<"push", "push", "pop">>, <<"pop", "push">> >>
 ProgMix == << <<"push", "pop", "push">>, <<"push", "pop">> >>
 ProgFull == << <<"push", "push", "push">>, <<"push", "pop">> >>        \* two producers meet a full node (EPN 1 or 2)
